@@ -73,8 +73,10 @@ def main():
             dest = VERIF / "seeded" / d.name
             dest.mkdir(parents=True, exist_ok=True)
             for f in ("patch.diff", "demo.py"):
-                shutil.copy(d / f, dest / f)
+                if (d / f).resolve() != (dest / f).resolve():
+                    shutil.copy(d / f, dest / f)
             meta2 = dict(meta)
+            meta2.pop("verified", None)
             meta2["verified"] = {
                 "how": "harness/seedtest.py: scratch worktree of /repo HEAD; demo.py on HEAD, patch applied, demo.py again, full baseline suite, then the named checks with VERIF_REPO=<worktree>",
                 "repo_head": sh("git -C /repo rev-parse --short HEAD")[1].strip(),
